@@ -29,7 +29,7 @@ RULE = ("states are descriptions of one physical circuit; the generators are nod
         "description; non-trivial = transformed description differs from the canonical one")
 ASSUMPTIONS = ["numpy accuracy on the palettes", "names are drawn from palettes whose sort order interleaves sources, inductors and passives"]
 EXPLANATION = "metamorphic two-run relations on the real solver, phasor engine, port impedance, state-space builder and transient simulation"
-NAMES = ["A", "Is", "L", "R", "Vs", "Z"]          # sorted order interleaves kinds whatever the assignment
+NAMES = ["A", "IsA", "L", "R", "VsR", "Z"]          # sorted order interleaves kinds whatever the assignment
 NODE_NAMES = ["n09", "9", "Ba", "a"]              # '9' < 'Ba' < 'a' < 'n09'; nested on purpose ('9' in 'n09', 'a' in 'Ba')
 
 
